@@ -25,3 +25,17 @@ Theorem C20_no_leak :
     w_cfg w = Some c -> ~ In OKill ops -> all_requests_ok sha sigok zdec base c w ops.
 Proof. exact requests_never_leak. Qed.
 Print Assumptions C20_no_leak.
+
+(* tie to the current sources (gen/Consts.v is regenerated from /repo on every run): the default
+   channel, the request's fields and where each one is taken from *)
+From UVG Require Import Consts.
+Theorem C20_constants_from_source :
+  default_channel = gen_default_channel /\
+  gen_request_fields = ["app_id"; "channel"; "release_version"; "platform"; "arch"]%string /\
+  gen_request_sources =
+    [("app_id", "config.app_id.clone()"); ("channel", "config.channel.clone()");
+     ("release_version", "config.release_version.clone()");
+     ("platform", "current_platform().to_string()"); ("arch", "current_arch().to_string()")]%string /\
+  gen_check_url_suffix = "/api/v1/patches/check"%string.
+Proof. repeat split; reflexivity. Qed.
+Print Assumptions C20_constants_from_source.
